@@ -46,6 +46,31 @@ func refLines(content []byte, M int) [][]byte {
 	return lines
 }
 
+// refLinesLazy: the other reading of the permitted difference: the newline is
+// inserted only when a further non-newline byte follows the run of M bytes.
+func refLinesLazy(content []byte, M int) [][]byte {
+	var lines [][]byte
+	var cur []byte
+	for _, b := range content {
+		if b == '\n' {
+			cur = append(cur, b)
+			lines = append(lines, cur)
+			cur = nil
+			continue
+		}
+		if len(cur) >= M {
+			cur = append(cur, '\n')
+			lines = append(lines, cur)
+			cur = nil
+		}
+		cur = append(cur, b)
+	}
+	if len(cur) > 0 {
+		lines = append(lines, cur)
+	}
+	return lines
+}
+
 func concat(lines [][]byte) []byte {
 	var out []byte
 	for _, l := range lines {
@@ -181,7 +206,7 @@ func VerifC01aPlain(n, M, P int) {
 		verifrt.Finding("C01-KF4", len(lines) > 0)
 		verifrt.Reach("long-line-split")
 	}
-	if string(printed) == string(want) {
+	if string(printed) == string(want) || string(printed) == string(concat(refLinesLazy(content, M))) {
 		verifrt.Reach("output-equals-file")
 		return
 	}
